@@ -578,7 +578,8 @@ pub fn check_parked_send(c: &ParkedCase) -> CheckResult {
             }
         }
         // the peer stops reading; a large send parks on the full socket
-        let big = vec![0x5Au8; 24 << 20];
+        // (the WebSocket client refuses to send more than its assumed peer frame limit, 16 MiB)
+        let big = vec![0x5Au8; if ws { 15 << 20 } else { 24 << 20 }];
         let parked = match &client {
             AnyClient::B(cl) => {
                 let cl = cl.clone();
@@ -633,6 +634,9 @@ pub fn check_parked_send(c: &ParkedCase) -> CheckResult {
         // let everything go: the peer closes
         drop(io);
         let _ = tokio::time::timeout(Duration::from_secs(5), parked).await;
+        if std::env::var_os("VERIF_DEBUG").is_some() {
+            crate::engine::diag(&format!("parked-send {:?} {:?} k={k}: was_parked={was_parked} hung={hung:?} eos={eos}", c.client, c.fault));
+        }
         ensure!(
             hung.is_empty(),
             "inflight-call-hangs-behind-parked-send",
